@@ -15,7 +15,8 @@ RULE = ("cases are trees: generator-valid EML (eml/dataset roots, no references 
         "associatedParty/personnel with roles after the reference, dataTable, otherEntity, attribute, project ... wherever the rule "
         "offers `references`), placed by the rule's own insertion index or next to the source (before/after); fault variants make "
         "one reference dangling or duplicate one id, at every position. distinct = distinct tree values; non-trivial = trees with at "
-        "least one reference")
+        "least one reference"
+        ". Also: a second round on the same document after the referenced element was replaced or removed, near misses of real ids as dangling values, the same model opened twice with the other load edited, ids that differ in Unicode composition only, import-like decorations, ids on descendants of referenced elements")
 ASSUMPTIONS = [
     "precondition re-checked per case: every references value names exactly one id; source and referencing element share a rule; "
     "sources hold no references",
